@@ -157,7 +157,8 @@ def _compositions(n):
 def _small_fir(tier, seed, shard=(0, 1)):
     import random
     rnd = random.Random(8000 + seed)
-    kernels = {1: [2.0], 2: [1.0, 3.0], 3: [1.0, -2.0, 4.0], 4: [1.0, 3.0, 6.0, 10.0]}
+    # (the last two END in zero taps: the delay offset may point into them; the kernel length is still the number of taps given)
+    kernels = {1: [2.0], 2: [1.0, 3.0], 3: [1.0, -2.0, 4.0], 4: [1.0, 3.0, 6.0, 10.0], 5: [1.0, 2.0, 1.0, 0.0, 0.0], 6: [2.0, -1.0, 0.0, 0.0, 0.0, 0.0]}
     maxlen = 6 if tier == "quick" else 9
     k = 0
     for N, h in kernels.items():
@@ -181,7 +182,7 @@ def _bf(c):
 
 CONCRETE["bounded:fir_source"] = {
     "build": _build_fir, "small": _small_fir, "oracle": _oracle_fir, "shards": 4,
-    "bound": "the FirFilter class text extracted from fir.pyx executed on real numpy: kernels of 1..4 taps, every delay offset, "
+    "bound": "the FirFilter class text extracted from fir.pyx executed on real numpy: kernels of 1..4 taps and two kernels ending in zero taps, every delay offset, "
              "EVERY composition (ordered block split) of signals of length 1..6 (quick) / 1..9 (thorough) with extreme int16 values, each also beginning / ending with a run of zero samples; "
              "the flushed filter re-used for a float64 signal and for the int64 signal again",
     "timeout_s": 5.0, "budget_quick": 60, "budget_thorough": 600,
@@ -218,3 +219,26 @@ def _iir_sat(c):
     c.ensures("implies(x > 32767, result == 32767) and implies(x < -32767, result == -32767)", "out-of-range-inputs-land-on-the-limit-of-their-side")
     c.ensures("implies(-32767 <= x and x <= 32767, absv(to_real(result) - x) < 1 and absv(to_real(result)) <= absv(x))", "in-range-inputs-are-cut-toward-zero-never-wrapped")
     c.ensures("implies(x >= 0, result >= 0) and implies(x <= 0, result <= 0)", "the-sign-is-kept")
+
+
+# ================================================================== IIR: the state a new / reset filter carries (plain-Python part of iir.pyx)
+# The C kernel (_c_process, outside reach) asserts that the state vectors have len(B)-1 past inputs and len(A)-1 past outputs; the class
+# text around it - extracted mechanically like FirFilter - is what sizes and zeroes them.  "Resetting a filter makes it behave like a new
+# one": after reset_state() the state is exactly the constructor's.
+IIRPYX = "pyx:smpl_extract/filters/iir.pyx:IirFilter"
+
+
+@contract("lemma:iir_fresh_and_reset_state", props=["C19"], lemma_module=IIRPYX, lemma_deps=[],
+          lemma_src=("def fresh_then_reset(B, A):\n"
+                     "    f = IirFilter(B, A)\n"
+                     "    x0, y0 = f.x_prev, f.y_prev\n"
+                     "    f.get_remaining()\n"
+                     "    return (x0, y0, f.x_prev, f.y_prev)\n"))
+def _iir_state(c):
+    c.param("B", ("nd", "float"))
+    c.param("A", ("nd", "float"))
+    c.requires("np_cast(0) == 0", "0-is-a-value-of-the-state's-sample-type (float64)")
+    c.ensures("len(result[0]) == imax(0, len(B) - 1) and len(result[1]) == imax(0, len(A) - 1)", "a-new-filter-remembers-len(B)-1-inputs-and-len(A)-1-outputs")
+    c.ensures("forall(0, len(result[0]), lambda i: result[0][i] == 0) and forall(0, len(result[1]), lambda i: result[1][i] == 0)", "all-zero")
+    c.ensures("len(result[2]) == len(result[0]) and len(result[3]) == len(result[1]) and forall(0, len(result[2]), lambda i: result[2][i] == 0) "
+              "and forall(0, len(result[3]), lambda i: result[3][i] == 0)", "flush-resets-to-the-constructor-state")
